@@ -58,7 +58,9 @@ func (rule *RuleEvents) checkCron(spec *String) {
 	p := cron.NewParser(cron.Minute | cron.Hour | cron.Dom | cron.Month | cron.Dow)
 	sched, err := p.Parse(spec.Value)
 	if err != nil {
-		rule.Errorf(spec.Pos, "invalid CRON format %q in schedule event: %s", spec.Value, err.Error())
+		// The error message may contain the spec as-is. Do not break the message into multiple lines
+		msg := strings.ReplaceAll(err.Error(), "\n", " ")
+		rule.Errorf(spec.Pos, "invalid CRON format %q in schedule event: %s", spec.Value, msg)
 		return
 	}
 
